@@ -26,6 +26,7 @@ import (
 	"strconv"
 	"strings"
 	"sync"
+	"sync/atomic"
 	"syscall"
 	"testing"
 	"time"
@@ -335,6 +336,9 @@ type runner struct {
 	freed bool
 	fe    frontEnds
 	res   scenResult
+	masterBase string
+	masterDown int32
+	masterHits int32
 }
 
 func (r *runner) materialise(dir string) {
@@ -362,23 +366,25 @@ func (r *runner) materialise(dir string) {
 }
 
 // project is pi: the real directory as model files (passwords identified by recomputation).
-func (r *runner) project() (map[string]fileSt, bool, bool) {
+func (r *runner) project() (map[string]fileSt, bool, bool) { return r.projectDir(r.base) }
+
+func (r *runner) projectDir(base string) (map[string]fileSt, bool, bool) {
 	out := map[string]fileSt{}
 	for u := range r.sc.Files {
 		out[u] = fileSt{}
 	}
-	ents, _ := os.ReadDir(r.base)
+	ents, _ := os.ReadDir(base)
 	tmpEmpty := true
 	adminOK := false
 	for _, e := range ents {
 		if e.Name() == ".tmp" {
-			sub, _ := os.ReadDir(filepath.Join(r.base, ".tmp"))
+			sub, _ := os.ReadDir(filepath.Join(base, ".tmp"))
 			tmpEmpty = len(sub) == 0
 			continue
 		}
 		ext := filepath.Ext(e.Name())
 		u := strings.TrimSuffix(e.Name(), ext)
-		b, _ := os.ReadFile(filepath.Join(r.base, e.Name()))
+		b, _ := os.ReadFile(filepath.Join(base, e.Name()))
 		line, rest := concrete.SplitFile(b)
 		f := fileSt{Present: true, Adm: ext == ".admin", Pw: "?"}
 		switch string(rest) {
@@ -644,6 +650,30 @@ func (r *runner) run(dir string) scenResult {
 		}()
 		sc.Mode = "http://" + ln.Addr().String() + "/api/update"
 	}
+	if sc.Mode == "master" { // a second real agent (local upgrades, real web handler) as upgrade master
+		mdir := filepath.Join(dir, "master")
+		mr := &runner{sc: sc, sets: r.sets}
+		mr.materialise(mdir)
+		r.masterBase = mr.base
+		mst, merr := NewStore(mr.cfg, "local", "", "", "")
+		if merr != nil {
+			panic(merr)
+		}
+		mmux, merr := newWebHandler(mst.GetInterface())
+		if merr != nil {
+			panic(merr)
+		}
+		msrv := httptest.NewServer(http.HandlerFunc(func(w http.ResponseWriter, q *http.Request) {
+			if atomic.LoadInt32(&r.masterDown) != 0 {
+				http.Error(w, "master is down", http.StatusServiceUnavailable)
+				return
+			}
+			atomic.AddInt32(&r.masterHits, 1)
+			mmux.ServeHTTP(w, q)
+		}))
+		defer msrv.Close()
+		sc.Mode = msrv.URL + "/api/update"
+	}
 	r.st, err = NewStore(r.cfg, sc.Mode, sc.PolicyType, sc.PolicyCond, sc.HooksDir)
 	if err != nil {
 		panic(fmt.Sprintf("NewStore: %v", err))
@@ -739,6 +769,10 @@ func (r *runner) run(dir string) scenResult {
 				}
 			}
 			<-done
+		case "master_down":
+			atomic.StoreInt32(&r.masterDown, 1)
+		case "master_up":
+			atomic.StoreInt32(&r.masterDown, 0)
 		case "fdstorm":
 			r.fdStorm(s)
 		case "load":
@@ -771,6 +805,21 @@ func (r *runner) free() {
 	case <-time.After(watchdog):
 		r.hang("calls did not return")
 		return
+	}
+	if r.masterBase != "" { // remote upgrades are asynchronous: give the master a moment to finish them
+		for i := 0; i < 40; i++ {
+			mf, _, _ := r.projectDir(r.masterBase)
+			done := true
+			for _, f := range mf {
+				if f.Present && f.Set != r.sc.Default && f.Pw != "?" {
+					done = false
+				}
+			}
+			if done {
+				break
+			}
+			time.Sleep(50 * time.Millisecond)
+		}
 	}
 	// quiesce: park the dispatcher at the idle gate with all queues empty.  The dispatcher may be
 	// sitting in its select, so probe requests (list calls by client "probe") make it loop.
@@ -815,6 +864,11 @@ func (r *runner) free() {
 	m["tmpempty"] = tmpEmpty
 	m["checkerr"] = errStr(r.st.dir.Check())
 	m["dirsha"] = dirSha(r.base)
+	if r.masterBase != "" {
+		mf, _, _ := r.projectDir(r.masterBase)
+		m["master"] = mf
+		m["master_hits"] = atomic.LoadInt32(&r.masterHits)
+	}
 	rec.add(m)
 	gt.disarm("disp.idle")
 }
